@@ -59,7 +59,7 @@ Section Single.
   Notation s' := (snd (clean e o clk s0)).
   Notation log := (rev (lg (snd (clean e o clk s0)))).
   Definition model_case : case :=
-    Case (lfe e) s0 [RunRec t o (faults e) (cancel_at e) t0 t1 (result_code r) []]
+    Case (lfe e) s0 [RunRec t o (faults e) (efaults e) (cancel_at e) t0 t1 (result_code r) []]
          (map (TEv t) log) (sto s').
 
   Lemma model_under_lock : under_lock None (c_trace model_case) = true.
@@ -72,8 +72,14 @@ Section Single.
     - exact (single_locker_ok t log false (clean_thread_ok e o clk s0)).
   Qed.
 
-  Lemma stored_log : stored_ok (proj t (map (TEv t) log)) = stored_ok (lg s').
-  Proof. rewrite proj_single. apply stored_ok_rev. Qed.
+  Lemma stored_log : stored_any (proj t (map (TEv t) log)) = stored_any (lg s').
+  Proof.
+    rewrite proj_single. unfold stored_any. destruct (existsb _ (lg s')) eqn:E.
+    - apply existsb_exists in E. destruct E as [x [Hx Px]]. apply existsb_exists. exists x. split; [apply in_rev in Hx; exact Hx | exact Px].
+    - destruct (existsb _ (rev (lg s'))) eqn:E2; [|reflexivity]. apply existsb_exists in E2. destruct E2 as [x [Hx Px]].
+      assert (existsb (fun ev => match ev_kind ev with KStore => seqb (ev_key ev) spec_last_clean | _ => false end) (lg s') = true); [|congruence].
+      apply existsb_exists. exists x. split; [apply in_rev; exact Hx | exact Px].
+  Qed.
 
   Lemma model_diff_ok k : diff_ok model_case k = true.
   Proof.
@@ -150,7 +156,7 @@ Proof.
   { induction l as [|x l IH]; [reflexivity|]. cbn [list_eqb]. rewrite IH, andb_true_r.
     unfold event_eqb. rewrite N.eqb_refl, seqb_refl. destruct (ev_ok x); reflexivity. }
   unfold model_case.
-  cbn [c_runs c_s0 replay rr_fops]. unfold env_of. cbn [rr_faults rr_cancel c_lfe rr_opts rr_t0 rr_res rr_tid c_trace].
-  replace (Env (faults e) (cancel_at e) (lfe e)) with e by (destruct e; reflexivity).
+  cbn [c_runs c_s0 replay rr_fops]. unfold env_of. cbn [rr_faults rr_efaults rr_cancel c_lfe rr_opts rr_t0 rr_res rr_tid c_trace].
+  replace (Env (faults e) (efaults e) (cancel_at e) (lfe e)) with e by (destruct e; reflexivity).
   destruct (clean e o (fun _ => now) s0) as [r0 st0]. cbn [fst snd]. rewrite N.eqb_refl, proj_single, L. reflexivity.
 Qed.
